@@ -24,7 +24,7 @@ binding:   (a) spec -> code: every CASE x k concretizations is fed to the real p
            (c) process-wide state (spec/ReproTokenizerShared.tla: documents, objects, a memo keyed
            by line text; UnmodifiedLossless, Isolation, InputUntouched; negative control
            SharedTokens = TRUE): the previous document is kept alive and re-dumped / its input
-           re-tokenized after the next parse; for every 2nd case (thorough: every case of <= 3 lines, every
+           re-tokenized after the next parse; for every 3rd case (thorough: every case of <= 3 lines, every
            2nd 4-line and 3rd 5-line case) the same lines
            are parsed as iterator, generator and twice as the same list object (the list must come
            back untouched), the first result is edited through the public API (set / delete / sort /
@@ -34,7 +34,7 @@ binding:   (a) spec -> code: every CASE x k concretizations is fed to the real p
            re-dumped after the next document was parsed and a sibling parse was edited; that output
            is one more element of `outs`, judged by TLC.
            Aborted parses are history steps too (ParseFails; negative control LeftoverRunBuffer =
-           TRUE): before every 4th (thorough: 3rd) CASE parse and every 4th recorded document a parse of 1..8 (now
+           TRUE): before every 5th (thorough: 3rd) CASE parse and every 4th recorded document a parse of 1..8 (now
            and then 9..257) comment / field / error / continuation lines is aborted -- the input
            generator raises, a bytes line does not decode, or an unterminated non-final line follows
            -- and the valid parse after it must still be exact.
@@ -48,6 +48,50 @@ binding:   (a) spec -> code: every CASE x k concretizations is fed to the real p
            abstract trace form (per line: length, checksums, termination, classes; outputs as
            length+checksum blobs cut at newlines), so TLC still decides the verdict without
            scanning the text.
+           (e) API surface and character stress (notes/API_SURFACE.md, SIZE_STRESS.md part 2), see
+           the table below; payload pools contain non-NFC text next to its precomposed twins,
+           case-mapping hazards, U+FEFF at the start of first and later lines, zero-width / bidi
+           characters, non-BMP, lone surrogates (str paths only), NEL/LS/PS and the other
+           str.splitlines boundaries inside lines, and line-final / line-initial characters
+           rotating through every UTF-8 trailing byte (U+0400..U+043F).
+
+public entry point / variant                         exercised by (same expected text, verdict unless noted)
+---------------------------------------------------  --------------------------------------------------------------
+parse_deb822_file(list of str), both accept_* True    replay (every CASE concretization), trace (every document)
+  ... tuple / deque / iterable object (only __iter__) replay: variant_check rotation; trace: variant_extra rotation
+  ... iterator / generator / same list object twice   replay: shared_scenario (caller's list must stay untouched)
+  ... text file object (io.StringIO), real text file  replay + trace rotation; only sequences a text file can carry
+      opened with newline="\n"                         (every line but the last newline-terminated): mode N is out of
+                                                      domain for this form (a file has no "lines without newlines")
+  ... binary file object (io.BytesIO), real "rb" file  replay + trace rotation; UTF-8-encodable text only
+  ... list of bytes lines (UTF-8)                     replay: every variant_check (plus a drift-only sample in run_case);
+                                                      trace rotation
+  ... mixed str / bytes lines in one list             replay + trace rotation
+  ... bytes that are not UTF-8, input iterable raises history step ParseFails only (outside the domain: must not leak
+      mixed termination, inner newline, '' last line    into later parses; their own outcome is not judged)
+  accept_files_with_error_tokens=False /              diagnostic (spec_drift): the statement speaks about the accepting
+  accept_files_with_duplicated_fields=False             mode; tried on documents the model shows free of error parts /
+                                                      duplicate names (every 10th variant_check); flags are keyword-only
+                                                      (a positional flag is a TypeError by signature)
+tokenize_deb822_file(list / every form above)         replay: run_case (list), variant_check (rotating form), shared
+                                                      scenario (same list again); trace: every document (list)
+Deb822FileElement.dump()                              replay, trace (verdict observable of the statement)
+  .dump(fd) with a binary file object                 replay: variant_check (every check, encodable text); trace rotation
+  .convert_to_text()                                  replay: variant_check; trace rotation
+  .iter_tokens() -> token.text / .convert_to_text()   replay: variant_check; trace rotation; diagnostics: token kinds
+  .iter_recurse(only_element_or_token_type=Deb822Token) replay: variant_check; trace rotation
+  .iter_parts() -> paragraph.dump() / paragraph.dump(fd) replay: variant_check; trace rotation; diagnostics: part list
+      / element.convert_to_text()
+  results read back LATER, after other parses / edits  replay: prev_check, shared_scenario, variant_check (`alive`: created
+      / aborted parses, through another output form      through one form, read through another); trace: `later` re-dump
+  iter(file) (paragraphs), paragraph mapping API       only as the means of CallerMutates in shared_scenario (C05/C10/C11
+                                                      own the mapping/edit semantics)
+  copy.copy / copy.deepcopy of the result             diagnostic (spec_drift), every 10th variant_check
+  pickle of the result                                out of domain: not supported by the classes (weakref parent
+                                                      pointers: TypeError "cannot pickle weakref" on the unchanged tree;
+                                                      reported to the lead, not a C01 observable)
+  str() / repr() of elements                          out of domain: object default, no documented text form
+  print_ast, Deb822ParsedTokenList / interpret_as     out of domain: debugging aid / list views are C11
 verdict observables:   parse_deb822_file(lines, accept_files_with_error_tokens=True,
            accept_files_with_duplicated_fields=True) returns; dump() == expected;
            "".join(t.text for t in tokenize_deb822_file(lines)) == expected.
@@ -66,7 +110,7 @@ from lts import LTS, skey
 
 MANIFEST = dict(
     technique="TLA+ spec (ReproTokenizer: line-class automaton of the tokenizer + element-builder automaton, segment identities) model-checked by TLC; every bounded document replayed into parse_deb822_file/tokenize_deb822_file with several concretizations; recorded parses of random documents validated by TLC (TraceReproTokenizer)",
-    text="TLC checks totality and determinism of the tokenizer automaton on the closed control-state space (documents of any length) and, for every document of up to 3 lines over 11 line classes and 4 lines over 6 classes (quick; thorough: 5 lines over 11 classes, 6 lines over 6 classes) x termination x the two input modes, that every input segment lands in exactly one token in order (Lossless), that tokens obey the constructor rule (TokenShape) and that the element builders only group tokens (PartsLossless). Each of these documents is concretized several times (odd Unicode whitespace, duplicate and case-variant field names, values with ':' '#' '-', non-ASCII, garbage lines) and fed to the real parser: dump() and the joined token texts must equal the expected text carried by the TLC case. The property is also checked process-wide (ReproTokenizerShared: unmodified documents stay lossless whatever was parsed or edited before, the caller's list is untouched): earlier results are kept alive and re-dumped, inputs are parsed repeatedly and in iterator form, and results are edited through the public API between parses. Payload sizes are stressed in both legs (segment lengths at boundary values up to 64 KiB in the replay leg; long-line documents, runs of up to 1000 blank/comment/error lines, 1000-field paragraphs, 1000-line values and 10000-line documents in the trace leg, validated by TLC on a length-abstracted trace form). In the other direction random documents of up to 40 lines (walks through the emitted LTS, raw random text, mixtures) are parsed by the real code and TLC validates the recorded outputs against the identity, deciding itself from the code points whether the document is in the domain.",
+    text="TLC checks totality and determinism of the tokenizer automaton on the closed control-state space (documents of any length) and, for every document of up to 3 lines over 11 line classes and 4 lines over 6 classes (quick; thorough: 5 lines over 11 classes, 6 lines over 6 classes) x termination x the two input modes, that every input segment lands in exactly one token in order (Lossless), that tokens obey the constructor rule (TokenShape) and that the element builders only group tokens (PartsLossless). Each of these documents is concretized several times (odd Unicode whitespace, duplicate and case-variant field names, values with ':' '#' '-', non-ASCII, garbage lines) and fed to the real parser: dump() and the joined token texts must equal the expected text carried by the TLC case. The property is also checked process-wide (ReproTokenizerShared: unmodified documents stay lossless whatever was parsed or edited before, the caller's list is untouched): earlier results are kept alive and re-dumped, inputs are parsed repeatedly and in iterator form, and results are edited through the public API between parses. Payload sizes are stressed in both legs (segment lengths at boundary values up to 64 KiB in the replay leg; long-line documents, runs of up to 1000 blank/comment/error lines, 1000-field paragraphs, 1000-line values and 10000-line documents in the trace leg, validated by TLC on a length-abstracted trace form). Every public input form (tuple, iterator, generator, text/binary file objects, bytes and mixed lines) and output form (dump(), dump(fd), convert_to_text(), iter_tokens, iter_recurse, iter_parts with paragraph dump) is exercised on a rotating sample with the same expected text, payload text is character-stressed (non-NFC twins, BOM, zero-width, surrogates, every UTF-8 trailing byte at line ends), and aborted parses are history steps. In the other direction random documents of up to 40 lines (walks through the emitted LTS, raw random text, mixtures) are parsed by the real code and TLC validates the recorded outputs against the identity, deciding itself from the code points whether the document is in the domain.",
     note="Small-scope: bounded configurations stop at 4/6 lines (the longest ones over a reduced class alphabet; thorough replays documents of <= 4 lines over 11 classes and 5 lines over 8 classes); payload characters are sampled, not enumerated. Field-name equality (duplicate fields) is a payload dimension sampled by the concretizer, not modelled. Token kinds and part lists are diagnostic (spec_drift), only parse success and the two identities give a verdict. Lines may contain any code point except newline (incl. other str.splitlines boundaries); an empty unterminated last line and mixed termination are outside the domain (executed, any outcome accepted). Trusted: TLC, the concretizer, the projection (dump(), token texts); the independent line classifier only feeds diagnostics. Corrupted control traces must be rejected in every run.",
     design="5 (C01)")
 
@@ -86,6 +130,30 @@ ASCII_WORD = list("abcxyzABZ0189")
 ASCII_PUNCT = list(":#-,.=()${}|<>/\\\"'~+_@!?*[]%^&;`")
 NON_ASCII = ["\xe9", "\xdf", "\u4e2d", "\u03a9", "\u0301", "\U0001f600", "\ufeff", "\u200b", "\ud7ff",
              "\uffff", "\U0010ffff", "\u0660", "\xad"]
+# character stress (notes/SIZE_STRESS.md part 2): text that is not NFC/NFKC-stable next to its
+# precomposed twin, case-mapping hazards, zero-width / bidi / BOM, non-BMP; comparisons are by code
+# point.  Entries may be short sequences (base letter + combining mark, Hangul jamo).
+STRESS = ["e\u0301", "\xe9", "a\u030a", "\xe5", "A\u030a", "\xc5", "\u212b", "\u2126", "\u03a9", "\uf9d0", "\ufb01",
+          "\uff21", "\u1100\u1161", "\uac00", "\u1e9b\u0323",
+          "\xdf", "\u0130", "\u0131", "\u017f", "\u03c3", "\u03c2", "\U00010400", "\U00010428", "\u01c5",
+          "\ufeff", "\u200b", "\u200c", "\u200d", "\u2060", "\xad", "\u200e", "\u200f", "\u202e", "\u2066",
+          "\U0001f600", "\U0001f1e9\U0001f1ea", "\U000e0001", "\U0010ffff", "\u0301", "\u20dd"]
+# lone surrogates: str lines carry them through parse/dump() (the byte-oriented variants skip them)
+SURROGATES = ["\ud800", "\udbff", "\udc00", "\udfff"]
+# line-final / line-initial characters: U+0400..U+043F encode as D0 80..D0 BF (every UTF-8 trailing
+# byte), plus characters whose encodings start with the lead bytes of 2/3/4-byte sequences and end
+# in trailing bytes such as 0x85 / 0xA0
+TAILS = [chr(c) for c in range(0x400, 0x440)] + ["\xc5", "\u0105", "\u2105", "\u8005", "\U00010005", "\U00010385",
+                                                  "\u07ff", "\u0800", "\uffff", "\U00010000", "\xa9", "\u20a0"]
+_tail_rot = [0]
+
+
+def tail_char():
+    """rotates through TAILS so that every UTF-8 trailing byte ends (or starts) a line regularly"""
+    _tail_rot[0] += 1
+    return TAILS[_tail_rot[0] % len(TAILS)]
+
+
 CONTROL = ["\x00", "\x01", "\x08", "\x1b", "\x7f", "\x80", "\x9f"]
 NAME_FIRST = [chr(c) for c in range(0x21, 0x7f) if chr(c) not in ":#-."]
 NAME_REST = [chr(c) for c in range(0x21, 0x7f) if chr(c) != ":"]
@@ -110,16 +178,20 @@ def payload_char(rng, style):
     r = rng.random()
     if style == "ascii":
         return rng.choice(ASCII_WORD) if r < 0.6 else rng.choice(ASCII_PUNCT) if r < 0.85 else rng.choice(WS_PLAIN)
-    if r < 0.35:
+    if r < 0.32:
         return rng.choice(ASCII_WORD)
-    if r < 0.55:
+    if r < 0.50:
         return rng.choice(ASCII_PUNCT)
-    if r < 0.67:
+    if r < 0.61:
         return rng.choice(WS_PLAIN)
-    if r < 0.77:
+    if r < 0.71:
         return rng.choice(WS_EXOTIC)
-    if r < 0.93:
+    if r < 0.80:
         return rng.choice(NON_ASCII)
+    if r < 0.93:
+        return rng.choice(STRESS)
+    if r < 0.94:
+        return rng.choice(SURROGATES)
     return rng.choice(CONTROL)
 
 
@@ -134,18 +206,28 @@ def solid_char(rng, style):
 def core_text(rng, style, maxlen=8):
     """starts and ends with a non-whitespace character, anything but newline in between"""
     n = rng.choice([1, 1, 2, 3, 5, maxlen])
+    wild = style != "ascii"
     if n == 1:
-        return solid_char(rng, style)
+        return tail_char() if wild and rng.random() < 0.3 else solid_char(rng, style)
     first = rng.choice([":", "#", "-", ",", "."]) if rng.random() < 0.25 else solid_char(rng, style)
-    return first + "".join(payload_char(rng, style) for _ in range(n - 2)) + solid_char(rng, style)
+    last = tail_char() if wild and rng.random() < 0.4 else solid_char(rng, style)
+    return first + "".join(payload_char(rng, style) for _ in range(n - 2)) + last
 
 
 def junk_text(rng, style):
     """a line that is neither blank, comment, indented nor a field line"""
     if style == "canonical":
         return "junk"
-    form = rng.randrange(9)
+    form = rng.randrange(11)
     tail = "".join(payload_char(rng, style) for _ in range(rng.choice([0, 1, 3, 6])))
+    if style != "ascii" and tail and rng.random() < 0.4 and not _isws(tail[-1]):
+        tail = tail[:-1] + tail_char()
+    if style != "ascii" and form == 9:       # a byte order mark in front of what would be a field / comment
+        return "\ufeff" + rng.choice(["Source: foo", "# c", "A:", ": x", "", "\ufeff"]) + tail
+    if style != "ascii" and form == 10:      # line-initial character with a rotating UTF-8 encoding
+        return tail_char() + rng.choice(["", ": x", "A: b"]) + tail
+    if form >= 9:
+        form = 4
     if form == 0:      # no colon at all
         return "".join(c for c in core_text(rng, "ascii") if c not in ":# \t-") + "x" + tail.replace(":", "")
     if form == 1:      # leading hyphen
@@ -170,7 +252,8 @@ def junk_text(rng, style):
 def comment_text(rng, style):
     if style == "canonical":
         return "#c"
-    return "#" + "".join(payload_char(rng, style) for _ in range(rng.choice([0, 1, 3, 7])))
+    t = "#" + "".join(payload_char(rng, style) for _ in range(rng.choice([0, 1, 3, 7])))
+    return t + tail_char() if style != "ascii" and rng.random() < 0.3 else t
 
 
 def body_text(rng, style):
@@ -596,7 +679,8 @@ def poison_lines(rng, gen, want, style="ascii"):
     """k terminated lines that leave a run pending when the parse is aborted after them: comment
     lines, field lines, error lines, continuation lines, or a mixture (classes and segments come
     from the specification's LTS); k up to 8, sometimes a boundary count"""
-    k = rng.choice([1, 2, 2, 3, 4, 5, 6, 7, 8, 8]) if rng.random() < 0.93 else rng.choice(COUNTS)
+    r = rng.random()
+    k = rng.choice([1, 2, 2, 3, 4, 5, 6, 7, 8, 8]) if r < 0.96 else rng.choice(COUNTS[:8] if r < 0.995 else COUNTS)
     F = ["F1", "F1b", "F1a", "F1ba", "F0", "F0s"]
     kind = want if (want and rng.random() < 0.7) else rng.choice(["comment", "field", "error", "value", "mixed"])
     if kind == "comment":
@@ -641,6 +725,168 @@ def prev_check(prev, cur_lines):
     if tj != pexp:
         return "after parsing %r, tokenizing the earlier input %r again gives %r" % (cur_lines, plines, tj)
     return None
+
+
+# ------------------------------------------------------------------ API surface (notes/API_SURFACE.md)
+# Every public way of feeding the same line sequence and of reading the result back gets the same
+# verdict: the expected text of the abstract case.
+
+class _LinesObject:
+    """an iterable that is neither list nor iterator (only __iter__)"""
+
+    def __init__(self, lines):
+        self._lines = lines
+
+    def __iter__(self):
+        return iter(list(self._lines))
+
+
+INPUT_FORMS = ["tuple", "text file object", "binary file object", "bytes lines", "mixed str/bytes lines",
+               "iterable object", "deque", "real text file", "real binary file"]
+
+
+def input_form(form, lines, workdir):
+    """a fresh input object of the given form for the same line sequence, or None when the form
+    cannot carry this sequence (file objects: only newline-terminated-except-last sequences; byte
+    forms: only text that UTF-8 can encode)"""
+    import collections
+    import io
+    import os
+    if form == "tuple":
+        return tuple(lines)
+    if form == "iterable object":
+        return _LinesObject(lines)
+    if form == "deque":
+        return collections.deque(lines)
+    try:
+        enc = [l.encode("utf-8") for l in lines]
+    except UnicodeEncodeError:
+        enc = None
+    if form == "bytes lines":
+        return enc
+    if form == "mixed str/bytes lines":
+        return None if enc is None else [e if i % 2 else l for i, (l, e) in enumerate(zip(lines, enc))]
+    text = "".join(lines)
+    if list(io.StringIO(text)) != list(lines):       # the reference text file splits it differently
+        return None
+    if form == "text file object":
+        return io.StringIO(text)
+    if enc is None:
+        return None
+    if form == "binary file object":
+        return io.BytesIO(text.encode("utf-8"))
+    path = os.path.join(workdir, "c01-input")
+    with open(path, "wb") as fh:
+        fh.write(text.encode("utf-8"))
+    if form == "real text file":
+        return open(path, "r", encoding="utf-8", newline="\n")
+    return open(path, "rb")
+
+
+def output_forms(f, encodable):
+    """(label, text) for every public way of turning a parsed file back into text"""
+    import io
+    from debian._deb822_repro.parsing import Deb822ParagraphElement
+    from debian._deb822_repro.tokens import Deb822Token
+    out = [("dump()", f.dump()),
+           ("convert_to_text()", f.convert_to_text()),
+           ("iter_tokens() texts", "".join(t.text for t in f.iter_tokens())),
+           ("iter_tokens() convert_to_text()", "".join(t.convert_to_text() for t in f.iter_tokens())),
+           ("iter_recurse(Deb822Token) texts",
+            "".join(t.text for t in f.iter_recurse(only_element_or_token_type=Deb822Token))),
+           ("iter_parts(): paragraph.dump() / convert_to_text()",
+            "".join(x.dump() if isinstance(x, Deb822ParagraphElement) else x.convert_to_text() for x in f.iter_parts()))]
+    if encodable:
+        b = io.BytesIO()
+        f.dump(b)
+        out.append(("dump(fd)", b.getvalue().decode("utf-8")))
+        b = io.BytesIO()
+        for x in f.iter_parts():
+            if isinstance(x, Deb822ParagraphElement):
+                x.dump(b)
+            else:
+                b.write(x.convert_to_text().encode("utf-8"))
+        out.append(("iter_parts(): paragraph.dump(fd)", b.getvalue().decode("utf-8")))
+    return out
+
+
+def variant_check(lines, expected, vi, workdir, alive, stats=None):
+    """the same line sequence through a rotating input form (plus always the bytes-lines form) and
+    every output form; an earlier result created through another form is re-read through a rotating
+    output form.  Returns None or a message."""
+    where = "input %s, expected %s" % (short(list(lines), 800), short(expected, 500))
+    try:
+        encodable = True
+        try:
+            expected.encode("utf-8")
+        except UnicodeEncodeError:
+            encodable = False
+        forms = [INPUT_FORMS[vi % 7] if vi % 40 < 38 else INPUT_FORMS[7 + vi % 2], "bytes lines"]
+        for form in forms:
+            for target in ("parse", "tokenize"):
+                inp = input_form(form, lines, workdir)
+                if inp is None:
+                    continue
+                try:
+                    if target == "tokenize":
+                        tj = _tokjoin(inp)
+                        if tj != expected:
+                            return "tokenize_deb822_file(%s): token texts join to %s; %s" % (form, short(tj), where)
+                        continue
+                    f = _parse(inp)
+                finally:
+                    if hasattr(inp, "close"):
+                        inp.close()
+                if stats is not None:
+                    stats["input_form: " + form] = stats.get("input_form: " + form, 0) + 1
+                for label, text in output_forms(f, encodable):
+                    if text != expected:
+                        return "parse_deb822_file(%s) read back through %s gives %s; %s" % (form, label, short(text), where)
+                alive.append((f, expected, form, encodable))
+        # a result created earlier through another input form, read back now through one output form
+        if len(alive) > 3:
+            of, oexp, oform, oenc = alive.pop(0)
+            outs = output_forms(of, oenc)
+            label, text = outs[vi % len(outs)]
+            if text != oexp:
+                return ("an earlier, unmodified result of parse_deb822_file(%s), read back later through %s, gives %s, "
+                        "expected %s" % (oform, label, short(text), short(oexp)))
+            del alive[:-3]
+    except Exception as e:
+        return "%s: %s raised through a secondary entry point (form rotation %d); %s" % (type(e).__name__, e, vi, where)
+    return None
+
+
+def strict_and_copy_diagnostics(ctx, case, conc, lines, expected):
+    """diagnostic only (C01 speaks about the accepting mode and about the parsed result itself): the
+    non-accepting flags on documents the model shows free of error parts / duplicate names, and
+    copies of the result"""
+    import copy
+    from debian._deb822_repro import parse_deb822_file
+    has_error = any(p[0] in (3, 4) for p in case["p"])
+    names = [conc["%d:name" % (i + 1)].lower() for i, c in enumerate(case["ls"]) if c.startswith("F")]
+    dup, k = False, 0
+    for part in case["p"]:
+        if part[0] == 2:
+            mine = names[k:k + len(part[2])]
+            k += len(part[2])
+            dup = dup or len(set(mine)) != len(mine)
+    try:
+        if not has_error:
+            d = parse_deb822_file(list(lines), accept_files_with_duplicated_fields=True).dump()
+            if d != expected:
+                ctx.drift("accept_files_with_error_tokens=False on error-free %s gives %s" % (short(lines), short(d)))
+        if not dup:
+            d = parse_deb822_file(list(lines), accept_files_with_error_tokens=True).dump()
+            if d != expected:
+                ctx.drift("accept_files_with_duplicated_fields=False on duplicate-free %s gives %s" % (short(lines), short(d)))
+        f = _parse(list(lines))
+        for name, fn in (("copy.copy", copy.copy), ("copy.deepcopy", copy.deepcopy)):
+            d = fn(f).dump()
+            if d != expected:
+                ctx.drift("%s of the result of %s dumps %s" % (name, short(lines), short(d)))
+    except Exception as e:
+        ctx.drift("strict flags / copy on %s: %s: %s" % (short(lines), type(e).__name__, e))
 
 
 # ------------------------------------------------------------------ spec -> code: CASE replay
@@ -705,8 +951,13 @@ def run_case(ctx, case, conc, with_bytes=False, keep=None):
     return None, lines, expected
 
 
+def safe(msg):
+    """messages go to stdout: lone surrogates and the like are escaped"""
+    return msg.encode("utf-8", "backslashreplace").decode("utf-8") if isinstance(msg, str) else msg
+
+
 def short(x, n=400):
-    r = x if isinstance(x, str) else repr(x)
+    r = safe(x) if isinstance(x, str) else repr(x)
     return r if len(r) <= n else r[:n // 2] + " ...[%d chars]... " % len(r) + r[-n // 4:]
 
 
@@ -755,7 +1006,7 @@ def replay_history(history):
 
 
 def replay_cases(ctx, cases, styles, index, shared_every, stats, bytes_every=7, big_every=4, gen=None,
-                 fail_every=3):
+                 fail_every=3, variant_every=3):
     """styles: concretization styles per case (the first one is the canonical minimal form);
     shared_every: every n-th case also runs the shared-state scenario (1 = all);
     big_every: every n-th case gets one more, size-stressed concretization (boundary lengths)"""
@@ -764,6 +1015,7 @@ def replay_cases(ctx, cases, styles, index, shared_every, stats, bytes_every=7, 
     n = 0
     prev = None          # (file, lines, expected) of the previous concretization, kept alive
     history = deque(maxlen=6)     # the last harness events, recorded with every violation
+    alive_variants = []           # results created through secondary input forms, kept alive
     for idx, case in enumerate(cases):
         for j, style in enumerate(styles + ["big"] if idx % big_every == 1 % big_every else styles):
             conc = concretize_case(rng, case, style)
@@ -810,6 +1062,16 @@ def replay_cases(ctx, cases, styles, index, shared_every, stats, bytes_every=7, 
                         pass
             prev = (keep[0], lines, expected) if keep and keep[0] is not None else None
             history.append({"ev": "parse", "case": case, "conc": conc})
+            if (idx + j) % variant_every == 0:
+                vi = stats.get("api_variant_checks", 0)
+                stats["api_variant_checks"] = vi + 1
+                msg = variant_check(lines, expected, vi, ctx.work, alive_variants, stats)
+                if msg:
+                    ctx.violation({"kind": "variant", "case": case, "conc": conc, "vi": vi, "history": list(history)},
+                                  short(msg, 2500))
+                    break
+                if vi % 10 == 0:
+                    strict_and_copy_diagnostics(ctx, case, conc, lines, expected)
             if idx % shared_every == 0 and j == (idx // shared_every) % min(2, len(styles)):
                 pc = prefix_case(index, case)
                 other = case_texts(pc, conc) if pc is not None else None
@@ -832,7 +1094,7 @@ def replay_cases(ctx, cases, styles, index, shared_every, stats, bytes_every=7, 
 # ------------------------------------------------------------------ code -> spec: recorded parses
 
 RAW_ALPHA = ([" ", "\t", ":", "#", "-", "A", "b", "a", ".", ","] * 3 + WS_EXOTIC[:7] * 2 + WS_EXOTIC[7:]
-             + NON_ASCII + CONTROL + ["x", "Z", "0", "=", "\\", "\"", "~"])
+             + NON_ASCII + CONTROL + ["x", "Z", "0", "=", "\\", "\"", "~"] + STRESS + SURROGATES[:2] + TAILS[::7])
 
 
 def raw_body(rng):
@@ -1024,7 +1286,7 @@ def make_trace(lines, obs):
         # identity expectation, see the header of TraceReproTokenizer.tla)
         diag = 1 if len(lines) <= 300 else 0
         outs = []
-        for o in (obs["dump"], obs["tokjoin"], obs.get("later")):
+        for o in [obs["dump"], obs["tokjoin"], obs.get("later")] + list(obs.get("extra") or []):
             if o is not None:
                 p = {"pieces": pieces(o)}
                 if p not in outs:
@@ -1038,7 +1300,7 @@ def make_trace(lines, obs):
                 "exc": "none" if obs["exc"] == "none" else obs["exc"].split(":")[1].strip(), "outs": outs,
                 "kinds": (obs["kinds"] or []) if diag else [], "parts": (obs["parts"] or []) if diag else []}
     outs = []
-    for o in (obs["dump"], obs["tokjoin"], obs.get("later")):
+    for o in [obs["dump"], obs["tokjoin"], obs.get("later")] + list(obs.get("extra") or []):
         if o is not None and cps(o) not in outs:
             outs.append(cps(o))
     return {"abs": 0, "diag": 1, "lines": [{"t": cps(l), "cls": classify(l)} for l in lines],
@@ -1129,6 +1391,30 @@ def validate(ctx, docs, with_controls=True):
     return bad, drift, prog
 
 
+def variant_extra(obs, lines, vi, workdir):
+    """the same lines through a secondary input form, read back through two secondary output forms:
+    more observed outputs for TLC to judge"""
+    form = INPUT_FORMS[vi % 7]
+    try:
+        inp = input_form(form, lines, workdir)
+        if inp is None:
+            return
+        try:
+            vf = _parse(inp)
+        finally:
+            if hasattr(inp, "close"):
+                inp.close()
+        enc = True
+        try:
+            "".join(lines).encode("utf-8")
+        except UnicodeEncodeError:
+            enc = False
+        outs_v = output_forms(vf, enc)
+        obs["extra"] = [outs_v[vi % len(outs_v)][1], outs_v[(vi // 7 + 3) % len(outs_v)][1]]
+    except Exception as e:
+        obs["exc"] = "variant %s: %s: %s" % (form, type(e).__name__, e)
+
+
 def sibling_edit(lines, mseed, stats=None):
     """a second parse of the same lines is edited and dropped (CallerMutates on a sibling document)"""
     try:
@@ -1174,7 +1460,21 @@ def record_and_validate(ctx, gen, ndocs, maxlen, batch, stats):
                 failing_parse(pl, how)
                 stats["aborted_parses_before_recorded_documents"] = stats.get("aborted_parses_before_recorded_documents", 0) + 1
                 pre_fail = {"lines": pl, "how": how}
+            if lines and ctx.rng.random() < 0.06:
+                # a byte order mark in front of the first (and sometimes of a later) line: part of the text
+                lines = list(lines)
+                lines[0] = "\ufeff" + lines[0]
+                if len(lines) > 2 and ctx.rng.random() < 0.5:
+                    k = ctx.rng.randrange(1, len(lines))
+                    lines[k] = "\ufeff" + lines[k]
+                genc = None
+                stats["recorded_documents_with_bom"] = stats.get("recorded_documents_with_bom", 0) + 1
             obs = observe(lines, keep=True, diag=len(lines) <= 300)
+            vi = None
+            if len(docs) % 3 == 1 and obs["exc"] == "none":
+                vi = stats.get("recorded_variant_outputs", 0)
+                stats["recorded_variant_outputs"] = vi + 1
+                variant_extra(obs, lines, vi, ctx.work)
             mseed = ctx.rng.randrange(1 << 30)
             sibling_edit(lines, mseed, stats)
             if docs:
@@ -1183,7 +1483,7 @@ def record_and_validate(ctx, gen, ndocs, maxlen, batch, stats):
                 add_later(docs[-1][1])
                 ctxs[-1]["next_lines"] = lines
             docs.append((lines, obs))
-            ctxs.append({"mseed": mseed, "next_lines": None, "pre_fail": pre_fail})
+            ctxs.append({"mseed": mseed, "next_lines": None, "pre_fail": pre_fail, "vi": vi})
             b = min(len(lines) // 10 * 10, 40)
             lens[b] = lens.get(b, 0) + 1
             if genc is not None:
@@ -1195,7 +1495,7 @@ def record_and_validate(ctx, gen, ndocs, maxlen, batch, stats):
             lines, obs = docs[i]
             total_bad += 1
             ctx.violation({"kind": "trace", "lines": lines, "mseed": ctxs[i]["mseed"], "next_lines": ctxs[i]["next_lines"],
-                           "pre_fail": ctxs[i]["pre_fail"]},
+                           "pre_fail": ctxs[i]["pre_fail"], "vi": ctxs[i]["vi"]},
                           "recorded parse rejected by TraceReproTokenizer: the document is in the domain but the "
                           "output is not the input (exception: %s; dump() = %s; token texts = %s; dump() again after "
                           "the next document was parsed = %s); input %s"
@@ -1246,6 +1546,8 @@ def load_cases(r):
 def run(ctx):
     quick = ctx.tier == "quick"
     W = 8
+    _violation = ctx.violation
+    ctx.violation = lambda case, msg: _violation(case, safe(msg))
     ctx.assumptions += [
         "bounded configurations: documents of <= 3 lines over all 11 line classes and of 4 lines over 6 classes (quick); "
         "<= 4 lines over 11 classes and 5 lines over 8 classes replayed, <= 5 lines over 11 classes and <= 6 lines over 6 "
@@ -1284,7 +1586,8 @@ def run(ctx):
                 neg[const] = "violates " + inv
             # process-wide model: unmodified documents stay lossless, edits are isolated, aborted
             # parses leave nothing behind
-            ctx.tlc_must_hold("ReproTokenizerShared", "MC_ReproTokenizerShared.cfg", workers=2)
+            ctx.tlc_must_hold("ReproTokenizerShared", "MC_ReproTokenizerShared_quick.cfg" if quick
+                              else "MC_ReproTokenizerShared.cfg", workers=2)
             for cfg, const in (("MC_ReproTokenizerShared_neg.cfg", "SharedTokens"),
                                ("MC_ReproTokenizerShared_neg_leftover.cfg", "LeftoverRunBuffer")):
                 rn = ctx.tlc("ReproTokenizerShared", cfg, count=False, workers=2)
@@ -1318,7 +1621,8 @@ def run(ctx):
             cq = load_cases(rq)
             plan = [([c for c in cq if len(c["ls"]) <= 2], ["canonical", "wild", "wild", "wild"]),
                     ([c for c in cq if len(c["ls"]) == 3], ["canonical", "wild"]),
-                    ([c for c in cq if len(c["ls"]) == 4], ["canonical", "wild"])]
+                    ([c for i, c in enumerate(c for c in cq if len(c["ls"]) == 4) if i % 2 == 0], ["canonical"]),
+                    ([c for i, c in enumerate(c for c in cq if len(c["ls"]) == 4) if i % 2 == 1], ["wild"])]
         else:
             rt = ctx.tlc_must_hold("ReproTokenizer", "MC_ReproTokenizer_bnd_thorough.cfg", workers=W,
                                    want_tags={"CASE"})
@@ -1332,13 +1636,13 @@ def run(ctx):
         for cases, styles in plan:
             for c in cases:
                 by_len[len(c["ls"])] = by_len.get(len(c["ls"]), 0) + 1
-            # shared-state scenario: every 2nd case (quick); every case of <= 3 lines, every 2nd 4-line and
+            # shared-state scenario: every 3rd case (quick); every case of <= 3 lines, every 2nd 4-line and
             # every 3rd 5-line case (thorough)
             n_lines = len(cases[0]["ls"]) if cases else 0
-            every = 2 if quick else (3 if n_lines >= 5 else 2 if n_lines == 4 else 1)
+            every = 3 if quick else (3 if n_lines >= 5 else 2 if n_lines == 4 else 1)
             big_every = 4 if quick else (6 if cases and len(cases[0]["ls"]) >= 5 else 3)
             n_replayed += replay_cases(ctx, cases, styles, index, every, stats, big_every=big_every, gen=gen,
-                                       fail_every=4 if quick else 3)
+                                       fail_every=5 if quick else 3, variant_every=6 if quick else 3)
             if len(ctx.violations) >= ctx.max_violation_files:
                 break
         ctx.extra["cases_by_length"] = {str(k): v for k, v in sorted(by_len.items())}
@@ -1354,7 +1658,7 @@ def run(ctx):
 
         # 4. code -> spec
         if len(ctx.violations) < ctx.max_violation_files:
-            ndocs, batch = (1000, 1000) if quick else (7500, 2500)
+            ndocs, batch = (800, 800) if quick else (7500, 2500)
             record_and_validate(ctx, gen, ndocs, 40, batch, stats)
             ctx.traces += ndocs
             ctx.evaluations += ndocs
@@ -1369,6 +1673,18 @@ def run(ctx):
 
 
 def replay(ctx, case):
+    return safe(_replay(ctx, case))
+
+
+def _replay(ctx, case):
+    if case.get("kind") == "variant":
+        alive = replay_history(case.get("history"))
+        lines, expected = case_texts(case["case"], case["conc"])
+        msg = None
+        for vi in (case["vi"], case["vi"] + 1, case["vi"] + 2, case["vi"] + 3):   # also fills `alive`
+            msg = msg or variant_check(lines, expected, vi, ctx.work, [], None)
+        del alive
+        return msg
     if case.get("kind") == "case":
         alive = replay_history(case.get("history"))
         msg, _, _ = run_case(None, case["case"], case["conc"])
@@ -1397,6 +1713,8 @@ def replay(ctx, case):
         if case.get("pre_fail"):
             failing_parse(case["pre_fail"]["lines"], case["pre_fail"]["how"])
         obs = observe(lines, keep=True)
+        if case.get("vi") is not None and obs["exc"] == "none":
+            variant_extra(obs, lines, case["vi"], ctx.work)
         if case.get("mseed") is not None:
             sibling_edit(lines, case["mseed"])
         if case.get("next_lines") is not None:
